@@ -96,11 +96,16 @@ OrderedOverlap(t, dt, p) ==
 ----------------------------------------------------------------------------
 (* Operations and requests *)
 
+\* whether a leaf-list update may carry the empty value: not for the Set semantics (what an empty
+\* leaflist_val does to the tree is unspecified), yes for the intent comparison of gnmidiff
+\* (overridden by MC_GnmiDiff)
+EmptyLLPayload == FALSE
+
 JsonTargets == ContDP \cup EntryDP \cup {<< >>}
 
 Payloads(p) ==
   IF p \in LeafDP THEN {[t |-> "leaf", v |-> v[1]] : v \in DocValues(p)}
-  ELSE IF p \in LeafListDP THEN {[t |-> "ll", v |-> v] : v \in LLVals}
+  ELSE IF p \in LeafListDP THEN {[t |-> "ll", v |-> v] : v \in LLVals \cup (IF EmptyLLPayload THEN {<< >>} ELSE {})}
   ELSE {[t |-> "json", d |-> d] : d \in {d \in Docs(p) : GoodDoc(d)}}
 
 WriteTargets == LeafDP \cup LeafListDP \cup JsonTargets
